@@ -26,6 +26,9 @@ type passCase struct {
 	IMQ     string `json:"if_match_quoted,omitempty"`
 	INMQ    string `json:"if_none_match_quoted,omitempty"`
 	Exists  bool   `json:"object_exists"`
+	// Prefix: the handler serves below this URL path prefix (Handler.Prefix);
+	// the backend's paths lie below it too.
+	Prefix string `json:"prefix,omitempty"`
 	// observed
 	SeenIM  string `json:"server_saw_if_match,omitempty"`
 	SeenINM string `json:"server_saw_if_none_match,omitempty"`
@@ -96,21 +99,22 @@ func execPass(c *fw.Ctx, cs passCase) {
 		putOp  string
 		calls  func() []doubles.Call
 	)
+	px := cs.Prefix
 	switch cs.Server {
 	case "caldav":
-		b := &doubles.CalBackend{Principal: "/u/", HomeSet: "/u/cal/", Calendars: []caldav.Calendar{{Path: "/u/cal/c1/", Name: "c1", SupportedComponentSet: []string{"VEVENT"}}}}
+		b := &doubles.CalBackend{Principal: px + "/u/", HomeSet: px + "/u/cal/", Calendars: []caldav.Calendar{{Path: px + "/u/cal/c1/", Name: "c1", SupportedComponentSet: []string{"VEVENT"}}}}
 		if cs.Exists {
-			b.Objects = []caldav.CalendarObject{{Path: "/u/cal/c1/x.ics", ETag: "old"}}
+			b.Objects = []caldav.CalendarObject{{Path: px + "/u/cal/c1/x.ics", ETag: "old"}}
 		}
-		inner, calls = &caldav.Handler{Backend: b}, b.Calls
-		target, ctype, body, putOp = "/u/cal/c1/x.ics", "text/calendar; charset=utf-8", passICS, "PutCalendarObject"
+		inner, calls = &caldav.Handler{Backend: b, Prefix: px}, b.Calls
+		target, ctype, body, putOp = px+"/u/cal/c1/x.ics", "text/calendar; charset=utf-8", passICS, "PutCalendarObject"
 	default:
-		b := &doubles.CardBackend{Principal: "/u/", HomeSet: "/u/card/", Books: []carddav.AddressBook{{Path: "/u/card/b1/", Name: "b1"}}}
+		b := &doubles.CardBackend{Principal: px + "/u/", HomeSet: px + "/u/card/", Books: []carddav.AddressBook{{Path: px + "/u/card/b1/", Name: "b1"}}}
 		if cs.Exists {
-			b.Objects = []carddav.AddressObject{{Path: "/u/card/b1/x.vcf", ETag: "old"}}
+			b.Objects = []carddav.AddressObject{{Path: px + "/u/card/b1/x.vcf", ETag: "old"}}
 		}
-		inner, calls = &carddav.Handler{Backend: b}, b.Calls
-		target, ctype, body, putOp = "/u/card/b1/x.vcf", "text/vcard; charset=utf-8", passVCF, "PutAddressObject"
+		inner, calls = &carddav.Handler{Backend: b, Prefix: px}, b.Calls
+		target, ctype, body, putOp = px+"/u/card/b1/x.vcf", "text/vcard; charset=utf-8", passVCF, "PutAddressObject"
 	}
 	h := &tap{inner: inner}
 	hs := []hdr{{"Content-Type", ctype}}
@@ -123,6 +127,7 @@ func execPass(c *fw.Ctx, cs passCase) {
 	rp := do(h, "PUT", target, hs, []byte(body))
 	c.Eval(1)
 	c.Distinct("passthru|" + cs.Server + "|" + cs.IMKind + "|" + cs.INMKind)
+	c.Observe("passthru handler prefix", q(cs.Prefix), 1)
 	key := "passthru|" + cs.Server + "|"
 	if rp.Panic != "" {
 		c.Report(key+"panic", "PUT handler panicked: "+rp.Panic, cs)
@@ -209,6 +214,7 @@ func runPassThrough(c *fw.Ctx) {
 		cs.SendIM, im = genHeaderValue(r, cs.IMKind)
 		cs.SendINM, inm = genHeaderValue(r, cs.INMKind)
 		cs.IMHex, cs.INMHex = hx(im), hx(inm)
+		cs.Prefix = []string{"", "", "/dav", "/a/b"}[r.Intn(4)]
 		for _, srv := range []string{"caldav", "carddav"} {
 			cs.Server = srv
 			execPass(c, cs)
